@@ -144,7 +144,7 @@ class Ctx:
 
     # ---- kani --------------------------------------------------------------
     def kani(self, harness, extra, timeout, mem_gb, tag):
-        log = os.path.join(self.logs, "%s.%s.log" % (harness.split("::")[-1], tag))
+        log = os.path.join(self.logs, "%s.%s.log" % (harness.replace("::", "__"), tag))
         cmd = ["cargo", "kani", "--target-dir", self.target, "--harness", harness, "--exact"] + extra
         rc, to, wall = run(cmd, REPO, self.env, timeout, mem_gb, log)
         text = open(log, errors="replace").read()
@@ -184,6 +184,12 @@ class Ctx:
         return rc, out
 
 
+def short(h):
+    parts = h.split("::")
+    mod = [x for x in parts if x.startswith("verif_") or x == "life"]
+    return (mod[0].replace("verif_", "") + "::" if mod else "") + parts[-1]
+
+
 def own_oracle(prop, desc):
     return desc.startswith(prop + " ")
 
@@ -214,8 +220,11 @@ def classify(prop, job, r):
         return info
     for c in r["checks"]:
         d, st = c["desc"], c["status"]
-        if "unwinding assertion" in d and st != "SUCCESS":
+        if "unwinding assertion" in d and st == "FAILURE":
             info["status"] = "unwind_too_small"
+            return info
+        if "unwinding assertion" in d and st != "SUCCESS":
+            info["status"] = "undetermined"
             return info
     for c in r["checks"]:
         d, st, name = c["desc"], c["status"], c["name"]
@@ -256,7 +265,7 @@ def write_replay_file(ctx, job, desc, script, outputs, extra=None):
     os.makedirs(os.path.join(OUT_DIR, "replays"), exist_ok=True)
     hexs = "".join("%02x" % b for b in script)
     h = hashlib.sha1((job["harness"] + hexs + desc).encode()).hexdigest()[:10]
-    path = os.path.join(OUT_DIR, "replays", "%s-%s-%s.json" % (ctx.prop, job["harness"].split("::")[-1], h))
+    path = os.path.join(OUT_DIR, "replays", "%s-%s-%s.json" % (ctx.prop, short(job["harness"]), h))
     rp = job["replay"]
     doc = {"property": ctx.prop, "harness": job["harness"], "oracle": desc, "script_hex": hexs,
            "script": script, "replay": {"name": rp[0], "cfg": rp[1], "mask": job.get("mask", registry.PALL)},
@@ -348,7 +357,7 @@ def run_property(ctx, spec, t_start):
         flags = list(FAST_FLAGS) if job.get("profile", "fast") == "fast" else []
         flags += job.get("kani_flags", [])
         cap = job.get("timeout", 600 if tier == "quick" else 3600)
-        mem = job.get("mem_gb", 12 if tier == "quick" else 24)
+        mem = job.get("mem_gb", 20 if tier == "quick" else 28)
         if job["role"] == "witness":
             # expected to fail on the WITNESS assertion: ask for the trace values right away
             r = ctx.kani(job["harness"], flags + PLAYBACK_FLAGS, cap, mem, "run")
@@ -372,7 +381,7 @@ def run_property(ctx, spec, t_start):
         job, r, info, pb = f.result()
         results.append((job, r, info, pb))
         print("  [%s] %-46s %-9s %6.1fs vars=%d own_failed=%d%s" % (
-            job["role"], job["harness"].split("::")[-1], info["status"], r["wall_s"], r["sat_variables"],
+            job["role"], short(job["harness"]), info["status"], r["wall_s"], r["sat_variables"],
             len(info["failed_own"]), (" covers_unsat=%d" % len(info["covers_unsat"])) if info["covers_unsat"] else ""),
             flush=True)
     replayer = replayer_future.result()
@@ -387,7 +396,7 @@ def run_property(ctx, spec, t_start):
     step_cex = []
     release_bin = None
     for job, r, info, pb in results:
-        name = job["harness"].split("::")[-1]
+        name = short(job["harness"])
         st = info["status"]
         if st != "decided":
             if job.get("bonus"):
@@ -506,7 +515,7 @@ def write_evidence(ctx, spec, results, samples, t_start, status, violations, val
     claimed = 0
     not_covered = []
     for job, r, info, pb in results:
-        name = job["harness"].split("::")[-1]
+        name = short(job["harness"])
         if not job.get("bonus"):
             claimed += 1
         nchecks = len(r["checks"])
